@@ -23,6 +23,8 @@ class Ctx:
             r.update(native)
         self.results.append(r)
         self.log("  [E2] %-44s %-12s %s" % (name, status, reason[:160]))
+        import gc
+        gc.collect()        # in the thread that owns the z3 objects (automatic collection is off, see runner/main.py)
         return r
 
 
